@@ -162,6 +162,17 @@ def run(prog: Program, L: Ledger) -> None:
     L.rule("G3", "Translation: U(0,1)^3 @ cell − centroid of the moving group; Rotation: copy, rotate about COM, return difference; angles in the unit ASE expects, over a full period")
     L.rule("G4", "deformations: symmetric generator with uniform(−m, m) entries (traceless for Shape, scalar for Isotropic); result = G∘mask + 𝟙∘(¬mask)")
     L.rule("G5", "CompositeOperation.calculate = np.sum([op.calculate(context) for op in operations], axis=0)")
+    L.rule("G6", "every operation owns its parameters: no module- or class-level mutable object (a shared default mask …) is stored into an operation")
+    from ..sharing import shared_escapes
+
+    esc_, n_sh = shared_escapes(prog)
+    ops_esc = [e_ for e_ in esc_ if "/operations/" in e_.where or "/integrators/" in e_.where]
+    for e_ in ops_esc:
+        L.violation("G6", f"{e_.func}:shared-{e_.name}", e_.where,
+                    f"`{e_.name}` ({e_.kind}, created once at {e_.defined}) is {e_.how}: all operations built with the default share one object",
+                    "restrict one operation in place (op.mask[2, :] = False): every other default-mask operation, also those built later, loses isotropy / volume preservation / symmetry with it", e_.name)
+    if not ops_esc:
+        L.ok("G6", "operations:own-parameters", "src/quansino/operations", f"{n_sh} candidates in the package")
     L.assume(asetab.validate_euler_rotate())
 
     ops = {c.name: c for c in prog.subclasses(prog.cls("BaseOperation"), strict=True)}
